@@ -21,6 +21,9 @@ package main
 //     the conditions of the error returns that follow it in processServerHello;
 //   - resSessionIdLen / resSessionIdFromRand: `hs.hello.sessionId = make([]byte, N)` filled by
 //     io.ReadFull(c.config.rand(), …) in the server's doFullHandshake;
+//     resSessionIdWrites: EVERY assignment to hs.hello.sessionId in doFullHandshake with its enclosing
+//     conditions ("fresh:<n>" = make([]byte, n)), resSessionIdRandGuards: the conditions enclosing that
+//     io.ReadFull (a full handshake always names a fresh identifier: one unconditional write);
 //   - resServerPutCount: number of SessionCache.Put calls in createSessionState;
 //   - the server's view of its peer on the resumption path:
 //     resResumeCertGuards: the conditions that enclose the call of c.processCertsFromClient in
@@ -36,6 +39,7 @@ package main
 //     (doResumeHandshake), nothing else may look at it, its length in particular.
 
 import (
+	"fmt"
 	"go/ast"
 	"sort"
 	"strings"
@@ -377,6 +381,90 @@ func emitResumption(e *emitter, p *pkg) {
 		}
 		walk(body(p, key), nil)
 		return
+	}
+	// EVERY write of the ServerHello's session identifier in doFullHandshake, with the conditions that
+	// enclose it ("cond && cond => rhs"; unconditional: "rhs"), and the conditions enclosing the draw from
+	// Config.rand: a full handshake must ALWAYS name a fresh identifier (one unconditional make + ReadFull) —
+	// an identifier taken from anywhere else (the offered one, the session found in the cache) on some
+	// path makes the client take the ServerHello of a full handshake for a resumption
+	var idWrites []string
+	{
+		var walk func(stmts []ast.Stmt, conds []string)
+		note := func(st ast.Stmt, conds []string) {
+			ast.Inspect(st, func(x ast.Node) bool {
+				if _, isLit := x.(*ast.FuncLit); isLit {
+					return false
+				}
+				if as, ok := x.(*ast.AssignStmt); ok {
+					for i, l := range as.Lhs {
+						if p.src(l) == "hs.hello.sessionId" {
+							rhs := "?"
+							if len(as.Rhs) == len(as.Lhs) {
+								rhs = p.src(as.Rhs[i])
+								// a new buffer of n bytes (to be filled from Config.rand): "fresh:<n>"
+								if ce, ok := as.Rhs[i].(*ast.CallExpr); ok && p.src(ce.Fun) == "make" && len(ce.Args) == 2 && p.src(ce.Args[0]) == "[]byte" {
+									if n, ok := p.evalInt(ce.Args[1], 0, 0); ok {
+										rhs = fmt.Sprintf("fresh:%d", n)
+									}
+								}
+							}
+							if len(conds) > 0 {
+								rhs = strings.Join(conds, " && ") + " => " + rhs
+							}
+							idWrites = append(idWrites, rhs)
+						}
+					}
+				}
+				return true
+			})
+		}
+		walk = func(stmts []ast.Stmt, conds []string) {
+			for _, st := range stmts {
+				switch s := st.(type) {
+				case *ast.IfStmt:
+					if s.Init != nil {
+						note(s.Init, conds)
+					}
+					c := p.src(s.Cond)
+					walk(s.Body.List, append(append([]string{}, conds...), c))
+					switch el := s.Else.(type) {
+					case *ast.BlockStmt:
+						walk(el.List, append(append([]string{}, conds...), "!("+c+")"))
+					case *ast.IfStmt:
+						walk([]ast.Stmt{el}, append(append([]string{}, conds...), "!("+c+")"))
+					}
+				case *ast.ForStmt:
+					walk(s.Body.List, append(append([]string{}, conds...), "for"))
+				case *ast.RangeStmt:
+					walk(s.Body.List, append(append([]string{}, conds...), "range "+p.src(s.X)))
+				case *ast.BlockStmt:
+					walk(s.List, conds)
+				case *ast.SwitchStmt:
+					walk(s.Body.List, append(append([]string{}, conds...), "switch"))
+				case *ast.TypeSwitchStmt:
+					walk(s.Body.List, append(append([]string{}, conds...), "switch"))
+				case *ast.SelectStmt:
+					walk(s.Body.List, append(append([]string{}, conds...), "select"))
+				case *ast.CaseClause:
+					walk(s.Body, conds)
+				case *ast.CommClause:
+					walk(s.Body, conds)
+				case *ast.LabeledStmt:
+					walk([]ast.Stmt{s.Stmt}, conds)
+				default:
+					note(st, conds)
+				}
+			}
+		}
+		walk(body(p, "serverHandshakeState.doFullHandshake"), nil)
+	}
+	e.strList("resSessionIdWrites", idWrites)
+	rg, _, rfound := guardsOf("serverHandshakeState.doFullHandshake", func(ce *ast.CallExpr) bool {
+		return p.src(ce.Fun) == "io.ReadFull" && len(ce.Args) == 2 && strings.HasSuffix(p.src(ce.Args[0]), "config.rand()") && p.src(ce.Args[1]) == "hs.hello.sessionId"
+	})
+	e.strList("resSessionIdRandGuards", rg)
+	if len(idWrites) == 0 || !rfound {
+		miss("resSessionIdWrites")
 	}
 	cg, carg, cfound := guardsOf("serverHandshakeState.doResumeHandshake", func(ce *ast.CallExpr) bool {
 		return p.src(ce.Fun) == "c.processCertsFromClient"
